@@ -50,9 +50,10 @@ func init() {
 			ruleNoEarlyExit(c, "C05.3", "(*InjectorProviderCallStmt).generateChannelWaitStatement")
 			rulePoolPredicate(c, "C05.1")
 			ruleAsyncFlag(c, "C05.5")
+			ruleNoBreak(c, "C05.6", "(*Graph).findOptimalPool", "findOptimalPool: the backward scan of a candidate pool runs until it meets a dependency (reuse the pool) or an Async provider (try the next pool); it is never cut short, so an Async provider is not queued behind another Async provider that a sync provider happens to hide")
 			coRun(c, "C05.4", coParallel)
 		},
-		explanation: "Narrow claim. GS: goroutines are spawned before the main thread's first call; chains are wrapped in eg.Go, never inlined; a provider statement waits only for channels collected from its own arguments, so an input-free provider emits no wait; a pool runs as a goroutine exactly when its first provider is Async; the Async marker is propagated through every wrapper the parser unwraps (Bind, Async, nested). " +
+		explanation: "Narrow claim. GS: goroutines are spawned before the main thread's first call; chains are wrapped in eg.Go, never inlined; a provider statement waits only for channels collected from its own arguments, so an input-free provider emits no wait; a pool runs as a goroutine exactly when its first provider is Async; the Async marker is propagated through every wrapper the parser unwraps (Bind, Async, nested); the backward scan of the pool heuristic is never cut short by a break. " +
 			"CO: in each checked-in injector the calls of input-free Async providers are pairwise unordered and none is ordered after another Async call (existence of an all-overlap schedule).",
 		notDecided:  "that findOptimalPool keeps two independent Async nodes in different pools and that enough pools exist, for declarations outside the 36 checked-in ones - this is most of the property and is a fact about a greedy heuristic, not about code shape.",
 		assumptions: []string{"an eg.Go body starts independently of the spawning thread"},
@@ -92,9 +93,10 @@ func init() {
 			ruleWaitBeforeReturn(c, "C08.1")
 			ruleErrorFlow(c, "C08.1", false, false, true)
 			ruleChainWrapped(c, "C08.2")
+			ruleContextThreaded(c, "C08.2")
 			coRun(c, "C08.3", coLeaks)
 		},
-		explanation: "GS: every return template that can sit at injector level is either preceded by eg.Wait or emitted only without goroutines; goroutine bodies contain only escapable waits (their handler is the constant goroutine-level one). CO: for each early return of the 36 injectors, the goroutines that can still be parked on a barrier only the returning thread would lower.",
+		explanation: "GS: every return template that can sit at injector level is either preceded by eg.Wait or emitted only without goroutines; goroutine bodies contain only escapable waits (their handler is the constant goroutine-level one, every wait gets its ctx.Done() case whenever some argument is a context, and the errgroup is derived from that context so a failure wakes the waiters). CO: for each early return of the 36 injectors, the goroutines that can still be parked on a barrier only the returning thread would lower.",
 		notDecided:  "goroutines blocked inside user providers.",
 		assumptions: []string{"errgroup semantics", "a goroutine blocked in select on ctx.Done() of a context nobody cancels stays blocked"},
 	})
